@@ -6,13 +6,13 @@ P = {
          "Every case runs under catch_unwind with a recording hook in two build profiles (overflow checks on / off). The builtin x argument-shape matrix (arity 0..3 over the edge pool) and the operator x pool^2 matrix are complete; programs (rendered ASTs, token soups, raw Unicode, planted defects, deep nesting to 4096 chars) are sampled through all 48 entry points, four context kinds, iterators and formatters; the thorough tier adds coverage-guided libFuzzer campaigns. Exploration: absence of panics is shown only for what was generated.",
          "256 MiB worker stacks (stack exhaustion is outside the property, D12); user functions of generated contexts never panic; {:#?} only for trees of depth <= 64."),
  "C02": ("4 C02", "exhaustive small-scope enumeration + proptest round trip; oracle: independent precedence-climbing reference parser (AST -> render -> build -> normalise = AST)",
-         "Complete operator matrix (17^3 operator triples x 3^4 prefix choices, pairs x 8^3 operand forms, 9 assignment operators x 14^2), every token sequence up to length 6 (quick) / 7 (thorough) over a representative alphabet, and random ASTs rendered with minimal and with redundant parentheses; the built tree must equal the reference tree. Complete within the stated bounds, sampled beyond.",
+         "Complete operator matrix (17^3 operator triples x 3^4 prefix choices, pairs x 8^3 operand forms, 9 assignment operators x 14^2), every token sequence up to length 7 (quick) / 8 (thorough) over a representative alphabet, random ASTs rendered with minimal and redundant parentheses and without spaces (D6 words as opaque operands), and long spines up to 60 operators; the built tree must equal the reference tree. Complete within the stated bounds, sampled beyond.",
          "The reference grammar is the documented precedence table; D1-D4 regions (assignment to non-identifiers, adjacent assignment operators, x ^ -y ^ z, ! after an operand) are counted but not asserted."),
  "C03": ("4 C03", "complete operator x operand-pool^2 matrix + boundary-biased proptest pairs; oracle: independent i128 / f64 reference table",
          "All 14 binary and 2 prefix operators over every ordered pair of the 89-value edge pool (all six types), operands bound as variables and written as literals, in both build profiles; plus random pairs biased to overflow boundaries. Value bit-exact or error of the same class.",
          "std f64 arithmetic and powf are the IEEE reference; D7 (mixed comparisons after conversion to double), D8 (MIN % -1 may be 0 or an arithmetic error)."),
  "C04": ("4 C04", "exhaustive stateful enumeration (all abstract states x all operations) + proptest random histories; oracle: map model compared after every step",
-         "All 576 abstract states of a finite value/name domain, each reached by a clean and a dirty (other types, clone, clear) history, x 249 operations (set_value, 9 assignment operators with literal and variable right-hand sides, reads, clears, set_function, toggle, clone-and-continue); return values and complete observable state equal the model after every step. Random histories up to 60 steps over a larger domain.",
+         "All 784 abstract states of a finite value/name domain (13 values incl. both zeros and tuples of different element types), each reached by a clean and a dirty (other types, clone, clear) history, x every operation (set_value, 9 assignment operators with literal and variable right-hand sides, reads, clears, set_function, toggle, clone-and-continue); return values and complete observable state equal the model after every step. Random histories up to 60 steps over a larger domain.",
          "Model = BTreeMap with type tags; exact ExpectedT{actual} on type clashes."),
  "C05": ("4 C05", "exhaustive token-sequence enumeration + proptest nested sequences; oracle: reference chain-of-tuples parser and reference interpreter (value + effects)",
          "Every sequence up to length 7 (quick) / 9 (thorough) over `1 x = , ; ( )` and up to 5 / 6 over the 16-symbol base alphabet; well-formed ones must build into the reference tree and evaluate to the reference value and final variables; random nested sequences with empty elements.",
@@ -27,7 +27,7 @@ P = {
          "Random effectful programs (assignments in operand positions, recording and failing functions, unknown names, k/0 with distinct k, eager if, no short-circuit) over varied contexts; result (exact names, messages and failing operands), final variables and call log with arguments must equal the reference.",
          "User functions deterministic; their only effect is the harness-owned log."),
  "C09": ("4 C09", "complete configuration matrix enumeration; oracle: reference resolution rule with recording functions",
-         "54 names x 42 context configurations (switch, user function, variable, clone / clear_functions / clear / toggled twice, both empty contexts) x 32 call and variable forms = 72,576 evaluations, all enumerated; callee, argument shape and error must match.",
+         "54 names x 98 context configurations (switch, user function recording or itself failing with FunctionIdentifierNotFound, variable, clone / clone_from / clear_functions / clear / toggled twice, both empty contexts) x 32 call and variable forms = 169,344 evaluations, all enumerated; callee, argument shape and error must match.",
          "Builtin results are those of the C10 reference."),
  "C10": ("4 C10", "complete builtin x argument-shape matrix + per-family proptest; oracle: per-builtin reference functions (bit-exact / error / validity predicate for min,max) and len/substring laws",
          "49 builtins x 23,500 argument shapes (arity 0..3) in both build profiles, random arguments near function-specific boundaries, and (string, a, b) triples for the len/substring consistency laws.",
@@ -39,7 +39,7 @@ P = {
          "Strings of every family x context recipes: each typed / precompiled / context-free entry point equals the projection of the untyped string-level result, contexts after _mut variants agree, immutable variants do not mutate, build errors are returned by every entry point.",
          "The untyped string-level entry points are the reference points (their relation to the reference interpreter is C08/C11)."),
  "C13": ("4 C13", "exhaustive token-sequence enumeration + planted-defect proptest; oracle: independent local recogniser of ill-formedness (no tree built)",
-         "All 17.9 M sequences up to length 6 (quick) / 7 (thorough) over the base alphabet: unbalanced -> build error; balanced -> never an unmatched-brace error; missing operand / juxtaposition -> build error or wrong-arity node and never Ok in a generous context.",
+         "All 25.6 M sequences up to length 6 (quick) / 7 (thorough) over the base alphabet plus `true`, and planted defects in rendered and type-directed programs: unbalanced -> build error; balanced -> never an unmatched-brace error; missing operand / juxtaposition -> build error or wrong-arity node and never Ok in a generous context.",
          "D4 unclaimed."),
  "C14": ("4 C14", "proptest over well-formed ASTs; oracle: occurrence list of the generating AST, rename/eval commutation",
          "The ten iterators against the occurrence list, overwrite-through-mutable-iterator exactness, unknown-identifier errors listed, injective renaming commutes with evaluation (result, calls, final context).",
@@ -83,7 +83,7 @@ m={
  ],
  "checks": checks,
  "not_applicable": [],
- "notes": "Exit codes: 0 held on everything explored (KNOWN-FINDING lines possible), 1 VIOLATION, 2 inconclusive (harness build failure, watchdog, abnormal termination). Nine genuine defects found on the pinned tree were repaired by `fix:` commits in /repo and are listed in known_findings.json as fixed."
+ "notes": "Exit codes: 0 held on everything explored (KNOWN-FINDING lines possible), 1 VIOLATION, 2 inconclusive (harness build failure, watchdog, abnormal termination). Nine genuine defects found on the pinned tree were repaired by `fix:` commits in /repo and are listed in known_findings.json as fixed; one further genuine defect (C09: a context function that itself fails with FunctionIdentifierNotFound is treated as not defined) needs a Context API change and is recorded there with status known: C09 prints a KNOWN-FINDING line for exactly that signature and exits 0."
 }
 json.dump(m,open('/verif/MANIFEST.json','w'),indent=1,ensure_ascii=False)
 print("ok",len(checks))
